@@ -369,6 +369,7 @@ func genSRTDoc(t *rapid.T, o textOpts) srtDoc {
 	d := srtDoc{}
 	for i := 0; i < n; i++ {
 		c := srtCue{Start: genMs(t, "start"), End: genMs(t, "end")}
+		var prev *srtRun
 		nl := rapid.IntRange(1, 3).Draw(t, "lines")
 		for j := 0; j < nl; j++ {
 			nr := rapid.IntRange(1, 3).Draw(t, "runs")
@@ -376,6 +377,12 @@ func genSRTDoc(t *rapid.T, o textOpts) srtDoc {
 			joined := ""
 			for k := 0; k < nr; k++ {
 				run := genSRTRun(t, o)
+				// emphasis usually spans several runs and lines: half of the time the style of the previous run goes on
+				if prev != nil && rapid.Bool().Draw(t, "samestyle") {
+					run.B, run.I, run.U, run.Color = prev.B, prev.I, prev.U, prev.Color
+				}
+				pr := run
+				prev = &pr
 				// interior spaces between runs are part of the text: attach them to this run
 				if k > 0 && rapid.Bool().Draw(t, "lead") {
 					run.Text = " " + run.Text
